@@ -87,6 +87,15 @@ Definition bin_ty (op : binop) (a b : ty) : option ty :=
   | BEq | BNotEq => if ty_compat a b then Some TBool else None
   end.
 
+(* operators on the untyped [] whose result is the empty array: the parser annotates them with the
+   type the context infers ([]any, or the declared array type), or leaves [] *)
+Definition arrish (t : ty) : bool := match t with TArr _ | TEmptyArr => true | _ => false end.
+Definition bin_empty (op : binop) (a b t : ty) : bool :=
+  match op, a, b with
+  | BPlus, TEmptyArr, TEmptyArr | BAsterisk, TEmptyArr, TNum => arrish t
+  | _, _, _ => false
+  end.
+
 (* ---------- function signatures ---------- *)
 Record fsig := mk_sig { fs_params : list ty; fs_var : option ty; fs_ret : ty }.
 
@@ -278,7 +287,7 @@ Fixpoint ety (F : list funcdef) (G : tyenv) (e : expr) {struct e} : option ty :=
       end
   | EBin op t l r =>
       match ety F G l, ety F G r with
-      | Some a, Some b => if opt_ty_eqb (bin_ty op a b) t && ty_ann t then Some t else None
+      | Some a, Some b => if (opt_ty_eqb (bin_ty op a b) t || bin_empty op a b t) && ty_ann t then Some t else None
       | _, _ => None
       end
   | EIndex t l i =>
@@ -292,7 +301,7 @@ Fixpoint ety (F : list funcdef) (G : tyenv) (e : expr) {struct e} : option ty :=
       match ety F G l with
       | Some a =>
           match a with
-          | TArr _ | TStr => if ty_eqb a t && etyo lo && etyo hi then Some t else None
+          | TArr _ | TEmptyArr | TStr => if ty_eqb a t && etyo lo && etyo hi then Some t else None
           | _ => None
           end
       | None => None
